@@ -280,9 +280,9 @@ GEN = {
     "C10": ({"TagNames": '{"tag/a"}', "ConvNames": "{}", "MaxCalls": 7, "MaxViews": 3, "Menu": '"files"', "Invalid": "FALSE", "Extra": '{"badcap"}'}, 40),
     "C11": ({"TagNames": '{"tag/a", "tag/b", "mark/m"}', "ConvNames": "{}", "MaxCalls": 12, "MaxViews": 0, "Menu": '"tagsb"', "Invalid": "TRUE", "Extra": '{"rename", "color"}'}, 34),
     "C13": ({"TagNames": '{"tag/a"}', "ConvNames": "{}", "MaxCalls": 8, "MaxViews": 3, "Menu": '"files"', "Invalid": "FALSE", "Extra": '{"mergefail", "badcap"}'}, 40),
-    "C12": ({"TagNames": '{"tag/a", "tag/b", "mark/m"}', "ConvNames": '{"cv"}', "MaxCalls": 12, "MaxViews": 1, "Menu": '"conv"', "Invalid": "FALSE", "Crashes": "TRUE",
+    "C12": ({"TagNames": '{"tag/a", "tag/b", "mark/m"}', "ConvNames": '{"cv"}', "MaxCalls": 12, "MaxViews": 1, "Menu": '"convq"', "Invalid": "FALSE", "Crashes": "TRUE",
              "Restarts": "TRUE", "Extra": '{"rename", "color", "settings"}'}, 50),
-    "C16": ({"TagNames": '{"tag/a", "tag/b", "mark/m"}', "ConvNames": '{"cv"}', "MaxCalls": 10, "MaxViews": 1, "Menu": '"conv"', "Invalid": "FALSE", "Crashes": "TRUE",
+    "C16": ({"TagNames": '{"tag/a", "tag/b", "mark/m"}', "ConvNames": '{"cv"}', "MaxCalls": 10, "MaxViews": 1, "Menu": '"convq"', "Invalid": "FALSE", "Crashes": "TRUE",
              "Extra": '{"convdir"}'}, 48),
 }
 # C20 only: webhook / endpoint / config / rename / colour calls next to imports and tagging
@@ -304,6 +304,9 @@ MC = {
             # (two calls in the quick tier; three and four calls: MC_THOROUGH)
             ("conv-payload", {"TagNames": '{"tag/a", "tag/b"}', "ConvNames": '{"cv"}', "MaxCalls": 2, "MaxViews": 0, "Menu": '"conv"', "Invalid": "FALSE",
                               "Extra": '{"convdir"}'},
+             ["NeverStaleAtRest", "NeverStuck", "FlagsMatchJobs"]),
+            # a payload filter inside a sub-query: new converter output of one stream may change the answer for any other
+            ("conv-subq", {"TagNames": '{"tag/a", "tag/b"}', "ConvNames": '{"cv"}', "MaxCalls": 3, "MaxViews": 0, "Menu": '"subq"', "Invalid": "FALSE"},
              ["NeverStaleAtRest", "NeverStuck", "FlagsMatchJobs"])],
     "C09": [("tags3", {"TagNames": '{"tag/a", "tag/b"}', "ConvNames": "{}", "MaxCalls": 3, "MaxViews": 0, "Menu": '"tags"', "Invalid": "FALSE"},
              ["NeverStuck", "FlagsMatchJobs"]),
@@ -437,7 +440,7 @@ GEN2 = {   # additional generator configurations (same MaxLen)
     "C10": [{"TagNames": '{"tag/a", "tag/b"}', "ConvNames": "{}", "MaxCalls": 8, "MaxViews": 2, "Menu": '"conv"', "Invalid": "FALSE"}],
     "C11": [{"TagNames": '{"tag/a", "tag/b", "service/c"}', "ConvNames": "{}", "MaxCalls": 12, "MaxViews": 0, "Menu": '"subs"', "Invalid": "TRUE"}],
     "C06": [{"TagNames": '{"tag/a", "tag/b", "mark/m"}', "ConvNames": "{}", "MaxCalls": 7, "MaxViews": 1, "Menu": '"subs"', "Invalid": "FALSE"},
-            {"TagNames": '{"tag/a", "tag/b", "mark/m"}', "ConvNames": '{"cv"}', "MaxCalls": 9, "MaxViews": 1, "Menu": '"conv"', "Invalid": "FALSE", "Extra": '{"convdir"}'}],
+            {"TagNames": '{"tag/a", "tag/b", "mark/m"}', "ConvNames": '{"cv"}', "MaxCalls": 9, "MaxViews": 1, "Menu": '"convq"', "Invalid": "FALSE", "Extra": '{"convdir"}'}],
     "C09": [{"TagNames": '{"tag/a", "mark/m"}', "ConvNames": '{"cv"}', "MaxCalls": 8, "MaxViews": 1, "Menu": '"conv"', "Invalid": "FALSE"},
             {"TagNames": '{"tag/a", "tag/b", "mark/m"}', "ConvNames": "{}", "MaxCalls": 7, "MaxViews": 1, "Menu": '"subs"', "Invalid": "FALSE"},
             {"TagNames": '{"tag/a", "tag/b"}', "ConvNames": "{}", "MaxCalls": 7, "MaxViews": 1, "Menu": '"errs"', "Invalid": "FALSE"}],
